@@ -22,7 +22,23 @@ CHECKS = [
      "text": "each wrapper evaluates assert_no_intersection in a const item over one list per part; lists strictly increasing and equal to the wire names; compile witnesses: colliding programs rejected by rustc (E0080 at the contract), twins accepted; const-eval matrix (798 list tuples) decided by rustc's const evaluator, rejected set must equal the intersecting set.",
      "design_ref": "DESIGN.md §5 C05", "note": TV_NOTE + "; the merge scan is witnessed on a finite matrix, not proved",
      "technique": "static translation validation + compile-fail/compile-pass witnesses (const evaluation by rustc, no run-time execution)"},
+    {"id": "C06", "engine": "E-X + E-W + E-G", "level": "translation_validation",
+     "text": "set of generated entry points equals the documented set for every corpus contract; every entry point body and every multitest Contract method is reduced to a normal form and compared with the model (new() with the entry_points generics, dispatch with deps/env/info, override path and message type); override-subset witness libraries must type-check (quick: singles, pairs, all, none x migrate/reply x replies; thorough: all 64 subsets x 4); G4 for all inputs.",
+     "design_ref": "DESIGN.md §5 C06", "note": TV_NOTE,
+     "technique": "static translation validation + compile-pass witnesses + keyword-table rule over the generator"},
+    {"id": "C07", "engine": "E-X", "level": "translation_validation",
+     "text": "dispatch_reply of every replies-enabled corpus contract: per (handler name, outcome) the arm's normal form (method, context provenance, leading argument, payload values) or the documented pass-through, default arm an error; name->id pairing is read from the builders, not guessed. Witness family: all coverings, both declaration orders, data on/off (thorough: every accepted table with <=2 names, <=3 methods).",
+     "design_ref": "DESIGN.md §5 C07", "note": TV_NOTE,
+     "technique": "static translation validation with provenance tracking through let-bindings and patterns"},
+    {"id": "C08", "engine": "E-X + E-W", "level": "translation_validation",
+     "text": "id constants distinct and one per handler name; for each name and receiver the SubMsg literal (reply_on vs covered outcomes, id, payload, ..self resp. msg: self.into() + gas_limit: None; field set parsed from cosmwasm-std source) and payload codec symmetry with dispatch_reply; must-fail witness for names with colliding id identifiers.",
+     "design_ref": "DESIGN.md §5 C08", "note": TV_NOTE,
+     "technique": "static translation validation + compile-fail witness"},
+    {"id": "C09", "engine": "E-X", "level": "translation_validation",
+     "text": "the data-extraction statements of every success arm are classified (envelope decoder, inner JSON, on-absent, wrap) and compared with the documented table of the six modes + no marker; failure edges precede the handler call.",
+     "design_ref": "DESIGN.md §5 C09", "note": TV_NOTE,
+     "technique": "static translation validation: statement classification over expanded AST"},
 ]
 
 PENDING = "check under construction in this session (DESIGN.md §5 describes the planned rule); not claimed until its rule is armed"
-NOT_APPLICABLE = [{"property_id": f"C{n:02d}", "reason": PENDING} for n in range(6, 21)]
+NOT_APPLICABLE = [{"property_id": f"C{n:02d}", "reason": PENDING} for n in range(10, 21)]
